@@ -7,7 +7,12 @@
   `recurse_dependencies`, `process_include`, `process_embed`), compiler.rs
   (`DefaultCompilerOpts::read_new_file`: pseudo-files first, then the search directories in
   order, first hit wins) and frontend.rs (`frontend` — a `(mod …)` nested in an expression runs
-  `frontend` again with a FRESH `includes` vector, whose contents are dropped).
+  `frontend` again with a FRESH `includes` vector, which stays in the nested `CompileForm`).
+  State of the code mirrored: after 91ba43e (`recurse_dependencies` lists an embed-file target
+  under its resolved name and does not look inside) and 95cfe0a (`gather_dependencies` runs the
+  frontend without the liveness filter and walks the program with `collect_include_forms` /
+  `collect_include_forms_bodyform`: own include vector first, then the vectors of the programs
+  nested in the helpers, in helper order).
 
   Programs are abstracted to the forms that matter here:
     `incl n`      (include n)              n a pseudo-file (`*macros*`, a dialect name) or a file
@@ -120,6 +125,9 @@ def seqForms (pp : Form → R) : List Form → R
 
 def rd (r : RName) : Read := ⟨r, false, false⟩
 
+/-- a read of an embed-file target. -/
+def rdE (r : RName) : Read := ⟨r, true, false⟩
+
 /-- `recurse_dependencies`: dialect names are skipped; otherwise read, LIST, and walk the forms
     of the file (results of `process_pp_form` are discarded, its reads and listings are not). -/
 def recurseDeps (cfg : Cfg) (pp : Form → R) : Name → R
@@ -148,13 +156,19 @@ def embedValid : Kind → Bool × Bool → Bool
   | .hex, (h, _) => h
   | .sexp, (_, s) => s
 
-/-- `process_embed` (its `recurse_dependencies` call returns at once because `kind.is_some()`):
-    the file is read, nothing is listed, a `defconst` form results. -/
+/-- `recurse_dependencies` on an embed-file description (`desc.kind.is_some()`): the target is
+    read and LISTED under its resolved name; it is data, nothing inside it is looked at. -/
+def recurseEmbed (cfg : Cfg) (n : Nat) : R :=
+  match resolveDat cfg.dirs 0 n with
+  | none => .error .notFound
+  | some (i, _) => .ok ⟨[rdE (.dat i n)], [.dat i n], []⟩
+
+/-- `process_embed`: the file is read (again), nothing is listed, a `defconst` form results. -/
 def processEmbed (cfg : Cfg) (k : Kind) (n : Nat) : R :=
   match resolveDat cfg.dirs 0 n with
   | none => .error .notFound
   | some (i, v) =>
-    if embedValid k v = true then .ok ⟨[⟨.dat i n, true, false⟩], [], [.other]⟩ else .error .badEmbed
+    if embedValid k v = true then .ok ⟨[rdE (.dat i n)], [], [.other]⟩ else .error .badEmbed
 
 /-- `process_pp_form`, with `fuel` levels of include nesting left. -/
 def ppLevel (cfg : Cfg) : Nat → Form → R
@@ -166,7 +180,13 @@ def ppLevel (cfg : Cfg) : Nat → Form → R
       match processInclude cfg (ppLevel cfg fuel) n with
       | .error e => .error e
       | .ok b => .ok (a.append b)
-  | _ + 1, .embed k n => processEmbed cfg k n
+  | _ + 1, .embed k n =>
+    match recurseEmbed cfg n with
+    | .error e => .error e
+    | .ok a =>
+      match processEmbed cfg k n with
+      | .error e => .error e
+      | .ok b => .ok (a.append b)
   | _ + 1, .nested b => .ok ⟨[], [], [.nested b]⟩
   | _ + 1, .other => .ok ⟨[], [], [.other]⟩
 
@@ -178,7 +198,9 @@ def tagNested (nst : Bool) (rs : List Read) : List Read :=
   rs.map (fun r => ⟨r.res, r.embed, r.nested || nst⟩)
 
 /-- `compile_mod_` over the preprocessed forms: a raw include/embed is "unknown keyword in
-    helper"; a nested mod runs `frontend` (`fe`) — its reads happen, its listing is dropped. -/
+    helper"; a nested mod runs `frontend` (`fe`) — its reads happen, and its `includes` vector
+    stays in the nested program, where `collect_include_forms` finds it (helpers in order; the
+    listing of a program is its own vector followed by those of the programs nested in it). -/
 def compileHelpers (fe : List Form → R) : List Form → R
   | [] => .ok Out.empty
   | .incl _ :: _ => .error .rawInclude
@@ -190,9 +212,10 @@ def compileHelpers (fe : List Form → R) : List Form → R
     | .ok a =>
       match compileHelpers fe r with
       | .error e => .error e
-      | .ok c => .ok ⟨a.reads ++ c.reads, [], []⟩
+      | .ok c => .ok ⟨a.reads ++ c.reads, a.listed ++ c.listed, []⟩
 
-/-- `frontend`: preprocess with a fresh `includes` vector, then compile the helpers. -/
+/-- `frontend`: preprocess with a fresh `includes` vector, then compile the helpers; `listed` is
+    what `collect_include_forms` returns for the resulting program. -/
 def frontendLevel (cfg : Cfg) (stdenv : Bool) : Nat → Bool → List Form → R
   | 0, _, _ => .error .fuel
   | fuel + 1, nst, forms =>
@@ -201,9 +224,10 @@ def frontendLevel (cfg : Cfg) (stdenv : Bool) : Nat → Bool → List Form → R
     | .ok pre =>
       match compileHelpers (frontendLevel cfg stdenv fuel true) pre.forms with
       | .error e => .error e
-      | .ok sub => .ok ⟨tagNested nst pre.reads ++ sub.reads, pre.listed, []⟩
+      | .ok sub => .ok ⟨tagNested nst pre.reads ++ sub.reads, pre.listed ++ sub.listed, []⟩
 
-/-- `gather_dependencies`: `frontend` with `stdenv := dialect.strict`, then drop `*…*` names. -/
+/-- `gather_dependencies`: `frontend` with `stdenv := dialect.strict` (and no liveness filter: the
+    model keeps every helper anyway), `collect_include_forms`, then drop `*…*` names. -/
 def gatherDeps (cfg : Cfg) (fuel : Nat) (main : List Form) : Except Err (List RName) :=
   match frontendLevel cfg cfg.strict fuel false main with
   | .error e => .error e
@@ -218,6 +242,10 @@ def compileReads (cfg : Cfg) (fuel : Nat) (main : List Form) : Except Err (List 
 /-- `n` found in directory `i` and in no earlier one. -/
 def FirstMatch (dirs : List Dir) (i n : Nat) : Prop :=
   (∃ d f, dirs[i]? = some d ∧ d.src n = some f) ∧ ∀ j d, j < i → dirs[j]? = some d → d.src n = none
+
+/-- data file `n` found in directory `i` and in no earlier one. -/
+def FirstMatchDat (dirs : List Dir) (i n : Nat) : Prop :=
+  (∃ d v, dirs[i]? = some d ∧ d.dat n = some v) ∧ ∀ j d, j < i → dirs[j]? = some d → d.dat n = none
 
 /-- no `nested` form at the top level of a list of forms. -/
 def flatForms : List Form → Bool
